@@ -66,6 +66,8 @@ def handler(st, opts):
         sysc = cfg["sys"]
         if sysc == "laplace":
             A = g3solve.laplace_like(tt, N, dt, gen)
+        elif sysc == "diagvar":
+            A = g3solve.diagvar(tt, N, dt, gen)
         elif sysc == "spd":
             A = g3solve.spd(tt, N, cfg["r"], dt, gen)
         else:
